@@ -449,6 +449,7 @@ func init() {
 	reg.Part("C02/sched", func(c *reg.Ctx) *reg.Result { return runProgs(c, "C02", c.Arg("alloc", "0") == "1", false) })
 	reg.Part("C18/sched", func(c *reg.Ctx) *reg.Result { return runProgs(c, "C18", true, true) })
 	reg.Part("C16/sched", func(c *reg.Ctx) *reg.Result { return runProgs(c, "C16", false, false) })
+	reg.Part("C19/sched", func(c *reg.Ctx) *reg.Result { return runProgs(c, "C19", false, false) })
 }
 
 var _ = os.Remove
